@@ -27,6 +27,11 @@ def run(chk, replay=None):
             # short episodes with wide windows: entries still unfilled (negative seq = default output) when the horizon ends
             steps = [rnd.choice([3, 4, 5]) for _ in range(ne)]
             for c in cfg["conns"].values(): c["window"] = 3
+        vary = False
+        if g % 4 == 0:
+            # more recorded episodes than supervisor steps per episode: every episode is replayed with ITS OWN slice of the timings (no confusion of the
+            # episode axis with the step axis)
+            ne = 5; steps = [3, 3, 4, 3, 3]; vary = True
         if g % 4 == 3:
             # nodes that adapt their own params in step(): the returned step state (params included) is what the node's next step starts from in BOTH runtimes
             # (the models have no params: these graphs are compared runtime against runtime only)
@@ -34,7 +39,7 @@ def run(chk, replay=None):
         combos = [COMBOS[(2 * g + chk.seed + i) % 6] for i in range(2)] if quick else COMBOS
         seed = rnd.getrandbits(16)
         for (m, p) in combos:
-            jobs.append(dict(id=f"{g}:{m}:{int(p)}", cfg=cfg, source="async", steps=steps, episodes=ne, mode=m, prune=p, seed=seed))
+            jobs.append(dict(id=f"{g}:{m}:{int(p)}", cfg=cfg, source="async", steps=steps, episodes=ne, mode=m, prune=p, seed=seed, vary_eps_rng=vary))
     res = cl.run_jobs(jobs, nproc=8 if quick else 12, per_job_timeout=400)
     insts = []; meta = []
     for j in jobs:
@@ -59,6 +64,9 @@ def run(chk, replay=None):
             chk.traces_impl += 1
             arec = rr["async_records"][e]
             if "error" in arec: chk.feat("async-record-unavailable"); continue
+            if ep.get("final", {}).get("eps") != e:
+                chk.violation("replay-runs-another-episode", f"init(starting_eps={e}) + rollout ends with eps = {ep.get('final', {}).get('eps')}: episode {e} of the {len(rr['episodes'])} "
+                              f"recorded episodes is replayed with another episode's slice of the compiled timings", case)
             if "rows" not in ep: chk.feat("init_record-unavailable"); continue
             nrows = 0
             for n in names:
